@@ -12,7 +12,9 @@ EXPLANATION = (
     'none is a clock/environment/thread/global-RNG/IO function; RNG trait methods are only invoked on the caller\'s '
     'generic RNG parameter. R18.3 receivers: export takes &self, every body that writes a context field takes &mut '
     'self. R18.4 the ephemeral key of every encapsulation is derived from bytes drawn from the caller\'s RNG parameter '
-    'in that call (nowhere to cache it, by R18.1). R18.5 Send + Sync + Freeze for both context types over all '
+    'in that call (nowhere to cache it, by R18.1), and that buffer has no other writer (writes through iterators and '
+    'closures included). R18.6 zero-count: no pointer-to-integer cast, transmute, <*const T>::addr/align_offset or {:p} '
+    'formatting anywhere, so no result depends on an address (ASLR, stack depth, thread). R18.5 Send + Sync + Freeze for both context types over all '
     'AEAD x KDF x KEM combinations, all key/encapped-key/tag/mode/bundle/error types — verdict by the compiler on a '
     'generated witness crate, with a non-vacuity twin. From these and Rust\'s aliasing rules for safe code, results '
     'are functions of arguments + RNG bytes + the context, and concurrent &self exports / distinct contexts equal '
@@ -110,6 +112,52 @@ def ambient_callees(rep, facts, sites_unused=None, rule='R18.2'):
                           'RNG methods are invoked on the caller\'s generic RNG parameter only', where(a, a.term_point(bi)))
             seen[crate] = seen.get(crate, 0) + 1
     rep.extra['external_callee_crates'] = seen
+    return n
+
+
+ADDR_CASTS = ('PointerExposeProvenance', 'PointerExposeAddress', 'PointerWithExposedProvenance', 'PointerFromExposedAddress', 'Transmute', 'FnPtrToPtr')
+ADDR_CALLEES = ('addr', 'expose_provenance', 'expose_addr', 'align_offset', 'is_aligned', 'is_aligned_to')
+
+
+def address_dependence(rep, facts, sites_unused=None, rule='R18.6'):
+    """zero-count: no value is derived from an address (pointer-to-integer casts, transmutes, <*const T>::addr,
+    align_offset, {:p} formatting) — addresses differ per thread, stack depth and process (ASLR)"""
+    n = 0
+
+    def casts(x, out):
+        if isinstance(x, dict):
+            if x.get('k') == 'cast':
+                out.append(x)
+            for v in x.values():
+                casts(v, out)
+        elif isinstance(x, list):
+            for v in x:
+                casts(v, out)
+    for a in all_ans(facts):
+        for bi, blk in enumerate(a.body.blocks):
+            if blk['cleanup']:
+                continue
+            for si, st in enumerate(blk['stmts']):
+                cs = []
+                casts(st, cs)
+                for c in cs:
+                    n += 1
+                    if any(c['cast'].startswith(k) for k in ADDR_CASTS):
+                        rep.bad(rule, a.body.key, 'address-cast:%s' % c['cast'].split('(')[0], 'cast %s to %s' % (c['cast'], c.get('ty')),
+                                'no pointer/integer conversion: results must not depend on addresses', where(a, (bi, si)))
+            t = blk['term']
+            if t['k'] == 'call':
+                c = None
+                from ..mirjson import callee_of
+                c = callee_of(t)
+                if c is None:
+                    continue
+                n += 1
+                st_ty = (c.get('self_ty') or c.get('impl_self_ty') or '') + ' ' + ' '.join(t.get('arg_tys', [])[:1])
+                rawptr = '*const' in st_ty or '*mut' in st_ty or 'NonNull' in st_ty
+                if (c['name'] in ADDR_CALLEES and rawptr) or (c.get('trait') == 'core::fmt::Pointer') or 'fmt::Pointer' in c['path'] \
+                        or c['path'].endswith('new_pointer'):
+                    rep.bad(rule, a.body.key, 'address-call:%s' % c['name'], c['path'], 'no address-derived value', where(a, a.term_point(bi)))
     return n
 
 
@@ -218,6 +266,9 @@ def run(ctx, doctests=False):
     rep.obligations.append({'rule': 'R18.2', 'fn': '-', 'instance': 'scan', 'found': '%d external call sites scanned' % n2,
                             'verdict': 'ok', 'nontrivial': True})
     rep.call_sites = n2
+    n6 = address_dependence(rep, facts)
+    rep.obligations.append({'rule': 'R18.6', 'fn': '-', 'instance': 'scan', 'found': '%d casts and call sites scanned, 0 address-derived values' % n6,
+                            'verdict': 'ok', 'nontrivial': True})
     n3 = receivers(rep, facts)
     rep.floor('R18.3', 'export bodies + context writers', n3, 5)
     n4 = fresh_ephemeral(rep, facts)
@@ -228,7 +279,8 @@ def run(ctx, doctests=False):
     from ..framework import Reporter
     pf = ctx.posctl_facts()
     for fn, rule, need in ((enumerate_hidden_state, 'R18.1', {'static-mut', 'thread-local', 'static-interior-mut', 'field-interior-mut:c', 'unsafe-block', 'unsafe-fn', 'unsafe-impl'}),
-                           (ambient_callees, 'R18.2', {'ambient'})):
+                           (ambient_callees, 'R18.2', {'ambient'}),
+                           (address_dependence, 'R18.6', {'address-cast:PointerExpose', 'address-call:addr', 'address-call:'})):
         probe = Reporter('C18', ctx.tier, 'posctl')
         fn(probe, pf, None, rule)
         kinds = {v['key'].split('|', 2)[2] for v in probe.violations}
